@@ -80,6 +80,19 @@ def run(ctx, rep, tier):
     rep.check(order == want, "C19.a", LCF, "phase order " + " -> ".join(order),
               f"phases run as {order}, expected {want}: explicit -f/-fno- settings must override the level, implications and exclusions must see the final explicit values")
     rep.check(body and phases and phases[0][0] == "reset" and body.index(phases[0][1]) == 0, "C19.a", LCF, "reset is the first effect", "_reset_flags is not the first statement")
+    # C19.l (F-127): names looked up after case folding are refused unless the text the user wrote is ASCII - str.upper() maps U+017F, U+0131, the ligatures .. onto
+    # ASCII letters, so a spelling that is no flag's name would silently select one
+    rep.rule("C19.l", "a name that is looked up among the enum members after str.upper() is refused when the text as written is not ASCII")
+    n_l = 0
+    for cmp_ in [n for n in ast.walk(fn) if isinstance(n, ast.Compare) and len(n.ops) == 1 and isinstance(n.ops[0], ast.NotIn) and ast.unparse(n.comparators[0]).endswith(".__members__")]:
+        n_l += 1
+        par = model.parents.get(cmp_)
+        guards = [ast.unparse(v) for v in par.values] if isinstance(par, ast.BoolOp) and isinstance(par.op, ast.Or) else []
+        ok = any(re.fullmatch(r"not \w+\.isascii\(\)", g) for g in guards)
+        rep.check(ok, "C19.l", LCF, f"`{ast.unparse(cmp_)[:60]}` or not ascii", f"`{ast.unparse(cmp_)}` decides on the case-folded name alone: `-f\u017ftrings-as-u8` (long s) is accepted as strings-as-u8 "
+                  "instead of being reported as an unknown flag")
+    if n_l < 2:
+        raise AnalysisError(f"C19.l: only {n_l} member lookups found in {LCF} (floor 2)")
     ph = dict(phases)
     # C19.k (seed C19-14): every explicit setting is applied - the override loop stores unconditionally, whatever the value
     rep.rule("C19.k", "explicit -f / -fno- settings override the level: the override loop stores every (flag, value) pair, unconditionally")
@@ -275,8 +288,14 @@ def run(ctx, rep, tier):
     rep.check(m is None or re.search(r"if set_to not in \[", src) is not None, "C19.e", LCF, "--flag x=<value> domain-checked",
               "--flag name=value treats every unknown value as 'off' instead of reporting it")
     # unknown flag / option names
-    for need, what in ((r"if flag_name not in ProgramFlag\.__members__", "unknown flag"), (r"if p_option_name not in ProgramOption\.__members__", "unknown option")):
-        rep.check(re.search(need, src) is not None, "C19.e", LCF, f"{what} reported", f"{what} names are no longer reported")
+    for enum, what in (("ProgramFlag", "unknown flag"), ("ProgramOption", "unknown option")):
+        # an `if` that raises, one of whose alternatives is "<name> not in <Enum>.__members__" (further alternatives only refuse more)
+        found = False
+        for st in [n for n in ast.walk(fn) if isinstance(n, ast.If) and n.body and isinstance(n.body[-1], ast.Raise)]:
+            alts = st.test.values if isinstance(st.test, ast.BoolOp) and isinstance(st.test.op, ast.Or) else [st.test]
+            if any(isinstance(a, ast.Compare) and len(a.ops) == 1 and isinstance(a.ops[0], ast.NotIn) and ast.unparse(a.comparators[0]) == f"{enum}.__members__" for a in alts):
+                found = True
+        rep.check(found, "C19.e", LCF, f"{what} reported", f"{what} names are no longer reported")
 
     # ------------------------------------------------------------------ C19.f semantic implications
     rep.rule("C19.f", "implications code generation relies on are in the table")
